@@ -1,0 +1,19 @@
+//go:build verif
+
+package sqroot
+
+// Hooks for the verification machinery in /verif. Compiled only with
+// -tags verif; the shipped package is unaffected.
+
+// VerifNewNumber returns a Number backed by the given digit source, the
+// way v3 NewNumber does: digits is consulted through the memoizer exactly
+// as the root and rational digit closures are. The first value digits
+// returns must be between 1 and 9; -1 signals the end.
+func VerifNewNumber(digits func() int, exp int) *Number {
+	return &Number{exponent: exp, spec: newMemoizeSpec(digits)}
+}
+
+// VerifBufferSize exports the unexported bufferSize option.
+func VerifBufferSize(size int) Option {
+	return bufferSize(size)
+}
